@@ -70,6 +70,12 @@ def _scores(tier):
                                                                                key=(0, "major"), measures=[(0, 16), (16, 32)])))
     out.append(("change_to_the_relative_minor_and_back", lambda: with_keys(G.build_part("P1", 4, notes=[("n0", 0, 16, "C", None, 4, 1, 1), ("n1", 16, 16, "A", None, 3, 1, 1), ("n2", 32, 16, "E", None, 4, 1, 1)],
                                                                                          key=(0, "major"), measures=[(0, 16), (16, 32), (32, 48)]), (16, 0, "minor"), (32, 0, "major"))))
+    # the beat unit changes and the number of beats stays (3/4 -> 3/8 -> 3/4, 2/4 -> 2/2)
+    out.append(("three_four_to_three_eight_and_back", lambda: G.build_part("P1", 4, ts=((0, 3, 4), (24, 3, 8), (36, 3, 4)), notes=[("n0", 0, 12, "C", None, 4, 1, 1), ("n0b", 12, 12, "D", None, 4, 1, 1), ("n1", 24, 6, "E", None, 4, 1, 1),
+                                                                                                                               ("n2", 30, 6, "F", None, 4, 1, 1), ("n3", 36, 12, "G", None, 4, 1, 1)],
+                                                                          key=(0, "major"), measures=[(0, 12), (12, 24), (24, 30), (30, 36), (36, 48)])))
+    out.append(("two_four_to_two_two", lambda: G.build_part("P1", 4, ts=((0, 2, 4), (16, 2, 2)), notes=[("n0", 0, 8, "C", None, 4, 1, 1), ("n0b", 8, 8, "D", None, 4, 1, 1), ("n1", 16, 16, "E", None, 4, 1, 1), ("n2", 32, 16, "F", None, 4, 1, 1)],
+                                                           key=(0, "major"), measures=[(0, 8), (8, 16), (16, 32), (32, 48)])))
     out.append(("beat_type_changes_six_eight_to_four_four", lambda: G.build_part("P1", 4, ts=((0, 6, 8), (24, 4, 4)), notes=[("n0", 0, 12, "C", None, 4, 1, 1), ("n0b", 12, 12, "C", None, 4, 1, 1), ("n1", 24, 16, "D", None, 4, 1, 1),
                                                                                                                              ("n2", 40, 16, "E", None, 4, 1, 1)], key=(0, "major"), measures=[(0, 12), (12, 24), (24, 40), (40, 56)])))
     out.append(("beat_type_changes_two_two_to_three_eight_with_a_key_change", lambda: with_keys(G.build_part("P1", 4, ts=((0, 2, 2), (32, 3, 8)), notes=[("n0", 0, 16, "C", None, 4, 1, 1), ("n0b", 16, 16, "C", None, 4, 1, 1),
@@ -149,6 +155,15 @@ def bounded(b):
                         if okd:
                             b.case("match/arguments_untouched_by_export", al == al_before and G.fingerprint(part) == fp_before, dict(case, assume_unfolded=False),
                                    "save_match with its default options modified the alignment or the score part")
+                            # ... and that file holds the signatures of the score as well (a part without repeats unfolds to itself)
+                            okl, resd = b.guard("match/load_no_exception", dict(case, assume_unfolded=False), lambda: pt.load_match(fn_d, create_score=True))
+                            if okl and not list(part.iter_all(sc.Repeat)):
+                                sp_d = resd[2].parts[0]
+                                qp = lambda p_, o_: round(float(p_.quarter_map(o_.start.t) - p_.quarter_map(p_.first_point.t)), 4)
+                                tsd = lambda p_: sorted((qp(p_, t), t.beats, t.beat_type) for t in p_.iter_all(sc.TimeSignature))
+                                ksd = lambda p_: sorted((qp(p_, k), k.fifths, k.mode) for k in p_.iter_all(sc.KeySignature))
+                                b.case("match/time_and_key_signatures_at_the_bar_where_they_were_written", tsd(sp_d) == tsd(part) and ksd(sp_d) == ksd(part), dict(case, assume_unfolded=False),
+                                       "signatures in the file written with the default options %r %r, in the score %r %r" % (tsd(sp_d), ksd(sp_d), tsd(part), ksd(part)))
                     ok, res = b.guard("match/load_no_exception", case, lambda: pt.load_match(fn, create_score=True))
                     if not ok:
                         continue
